@@ -22,6 +22,7 @@ import (
 	"net"
 	"os"
 	"runtime/debug"
+	"runtime/pprof"
 	"sort"
 	"strings"
 	"testing"
@@ -496,8 +497,37 @@ func vwGuard(fn func() (string, string)) vwResult {
 	case r := <-ch:
 		return r
 	case <-time.After(vwCallTimeout):
-		return vwResult{Outcome: "hang", Detail: fmt.Sprintf("no return within %v", vwCallTimeout)}
+		site, st := vwHangSite("vwGuard.func1")
+		return vwResult{Outcome: "hang", Detail: fmt.Sprintf("no return within %v", vwCallTimeout), Site: site, Stack: st}
 	}
+}
+
+// vwHangSite looks for a goroutine whose stack contains marker and names the innermost frame of the repository's own
+// code in it (a spinning goroutine is sampled at a different library frame every time; the repository frame is stable)
+func vwHangSite(marker string) (string, string) {
+	var sb strings.Builder
+	_ = pprof.Lookup("goroutine").WriteTo(&sb, 2)
+	for _, g := range strings.Split(sb.String(), "\n\n") {
+		if !strings.Contains(g, marker) {
+			continue
+		}
+		ls := strings.Split(g, "\n")
+		for i := 1; i+1 < len(ls); i++ {
+			if strings.HasPrefix(ls[i], "\t") || !strings.Contains(ls[i], "refraction-networking/conjure/") {
+				continue
+			}
+			if strings.Contains(ls[i+1], "_verif") {
+				continue
+			}
+			fn := ls[i]
+			if k := strings.LastIndex(fn, "("); k > 0 {
+				fn = fn[:k]
+			}
+			return vwShortFn(fn), g
+		}
+		return "unknown", g
+	}
+	return "unknown", ""
 }
 
 // ------------------------------------------------------------------ mutation neighbourhood
@@ -557,7 +587,12 @@ type vwRunner struct {
 	nAnom    int
 	perSite  map[string]int
 	nomBad   int
+	nHang    int
+	aborted  bool
 }
+
+// every hang costs a full timeout and may leave a spinning goroutine behind: a few are enough for a verdict
+const vwMaxHangs = 3
 
 func vwNewRunner(t testing.TB) *vwRunner {
 	r := &vwRunner{t: t, out: vOpenOut(t), rng: mrand.New(mrand.NewSource(vSeed()*7919 + 11)), skip: map[int]bool{},
@@ -611,17 +646,19 @@ func (r *vwRunner) muts(row *vwRow, raw []byte) []vwMut {
 func (r *vwRunner) record(row *vwRow, variant string, res vwResult) {
 	r.nDeliv++
 	r.counts[row.Ep+":"+res.Outcome]++
+	if res.Outcome == "hang" {
+		r.nHang++
+	}
 	if res.Outcome == "panic" || res.Outcome == "hang" || res.Outcome == "nostatus" {
 		r.nAnom++
 		key := res.Outcome + "|" + res.Site
 		r.perSite[key]++
-		if r.perSite[key] <= 400 {
-			st := res.Stack
-			if r.perSite[key] > 3 {
-				st = ""
+		if r.perSite[key] <= 20000 {
+			rec := map[string]any{"kind": "anomaly", "what": res.Outcome, "ep": row.Ep, "idx": row.idx, "f": row.F, "variant": variant, "site": res.Site}
+			if r.perSite[key] <= 3 {
+				rec["panic"], rec["detail"], rec["stack"] = res.Panic, res.Detail, res.Stack
 			}
-			r.out.Emit(map[string]any{"kind": "anomaly", "what": res.Outcome, "ep": row.Ep, "idx": row.idx, "f": row.F, "variant": variant,
-				"site": res.Site, "panic": res.Panic, "detail": res.Detail, "stack": st})
+			r.out.Emit(rec)
 			r.flush()
 		}
 		return
@@ -667,6 +704,10 @@ func (r *vwRunner) each(eps []string, fn func(row *vwRow)) {
 		if idx < r.start || r.skip[idx] {
 			return
 		}
+		if r.nHang >= vwMaxHangs {
+			r.aborted = true
+			return
+		}
 		var row vwRow
 		if err := json.Unmarshal(line, &row); err != nil {
 			r.t.Fatalf("row %d: %v", idx, err)
@@ -688,7 +729,7 @@ func (r *vwRunner) finish(extra map[string]any) {
 	}
 	sort.Strings(keys)
 	m := map[string]any{"kind": "summary", "rows": r.nRows, "deliveries": r.nDeliv, "anomalies": r.nAnom, "disagreements": r.nDisagr,
-		"nominal_not_accepted": r.nomBad, "counts": r.counts}
+		"nominal_not_accepted": r.nomBad, "counts": r.counts, "aborted_after_hangs": r.aborted}
 	for k, v := range extra {
 		m[k] = v
 	}
